@@ -493,6 +493,20 @@ def r_seq_canon(ck: Checker) -> None:
         ck.incomplete("R-SINGLETON-RT", None, None, "no field annotated with an abstract sequence type found (MultiOrigin.origins confirmed by hand)")
 
 
+def r_path_verbatim(ck: Checker) -> None:
+    """A Path property / source path is written so that the same Path is read back.  Normalising functions (normpath, resolve, absolute,
+    expanduser, realpath, relative_to ...) map different paths to one text: `a/../b` comes back as `b`, another path, another source,
+    another content_id (positive pattern: such a call on the way of a Path into the payload, i.e. anywhere in serialize.py)."""
+    LOSSY = ("normpath", "resolve", "absolute", "expanduser", "realpath", "abspath", "relative_to", "normcase", "expandvars")
+    m_ = ck.repo.mod(SER)
+    bad = next((c for c in ast.walk(m_.tree) if isinstance(c, ast.Call) and (dotted(c.func) or "").split(".")[-1] in LOSSY), None)
+    what = "paths are serialized as they are spelled (as_posix / str), so that the same Path is read back"
+    if bad is not None:
+        ck.violation("R-FMT-PAIR", (m_.rel, "<module>"), bad, what, positive=True, construct=f"serialize.py: {norm(bad)[:50]} rewrites the path on its way into the payload — paths that differ only in spelling are read back as one")
+    else:
+        ck.holds("R-FMT-PAIR", (m_.rel, "<module>"), None, what)
+
+
 def r_payload_readonly(ck: Checker) -> None:
     """The mapping handed to a deserialization hook is the caller's object (as_obj passes it on; mashumaro passes nested mappings of it):
     a hook that pops / deletes / stores keys of it changes what a second read of the same payload sees (positive pattern)."""
@@ -575,7 +589,10 @@ def run(ck: Checker) -> None:
     ck.assumptions += ["mashumaro, orjson, msgpack and PyYAML round-trip the representable value kinds (not analysed)"]
     ck.guard("R-DESER-ID", lambda: r_deser_id(ck))
     ck.guard("R-DESER-ID", lambda: r_payload_readonly(ck))
+    ck.guard("R-FMT-PAIR", lambda: r_path_verbatim(ck))
     ck.guard("R-SINGLETON-RT", lambda: r_seq_canon(ck))
+    from . import state_rules as S4b
+    ck.guard("R-SINGLETON-RT", lambda: S4b.r_unstable_key(ck, "R-SINGLETON-RT", [(ORIGIN, "Position._deserialize"), (ORIGIN, "Source._deserialize"), (ORIGIN, "Origin._deserialize"), ("pyoak.node", "ASTNode._deserialize"), (SER, "DataClassSerializeMixin")], "what is read back is built from the payload, not looked up by a name"))
     ck.guard("R-FMT-PAIR", lambda: r_no_serialized_memo(ck))
     ck.guard("R-TAG-TABLE", lambda: r_tag_table(ck))
     ck.guard("R-SINGLETON-RT", lambda: r_singleton_rt(ck))
